@@ -21,7 +21,7 @@ def main():
     ids = args[1:] or ([meta["property"]] if "property" in meta else [])
     if not ids:
         print("no check ids"); sys.exit(2)
-    wt = "/tmp/wt-seed-" + hashlib.sha1(seed.encode()).hexdigest()[:8]
+    wt = "/tmp/wt-seed-" + hashlib.sha1(seed.encode()).hexdigest()[:8] + "-%d" % os.getpid()   # per run: two parties may test one seed at once
     subprocess.run(["git", "-C", "/repo", "worktree", "remove", "--force", wt], stderr=subprocess.DEVNULL)
     subprocess.run(["git", "-C", "/repo", "worktree", "add", "-q", "--detach", wt, "HEAD"], check=True)
     alt = os.path.join(VERIF, "build", "alt-" + hashlib.sha1(os.path.realpath(wt).encode()).hexdigest()[:10])
